@@ -13,7 +13,15 @@ public class FoamContext {
         mainArgv[0] = Word.U.fromArray(literalCharArray(c.getClass().getName()));
         Globals.setGlobal("mainArgc", Word.U.fromSInt(1).toValue());
         Globals.setGlobal("mainArgv", Word.U.fromArray(mainArgv).toValue());
-        c.run();
+        try {
+            c.run();
+        }
+        finally {
+            // System.out is flushed at each newline only: whatever the
+            // program wrote after its last newline is still buffered,
+            // whether it returns or ends in an exception.
+            System.out.flush();
+        }
     }
 
     private static char[] literalCharArray(String s) {
